@@ -9,7 +9,7 @@ from pathlib import Path
 
 from harness import common
 from harness.common import Ck, VERIF
-from translate import c15_container, c15_frame, c15_pixel
+from translate import c15_access, c15_container, c15_frame, c15_pixel
 
 MANIFEST = dict(
     technique='Rocq proof (symbolic bit-level evaluation of the translated pixel codecs proved sound, so the round-trip laws hold '
@@ -19,7 +19,10 @@ MANIFEST = dict(
               'blocks and offsets; induction over sequences and frames for the particle sheet) + ast translators behind a semantic '
               'normalisation (codecs, layout incl. symbolic evaluation of scale_down, side lists, abstract interpretation of class '
               'Frame, pack/unpack site census, flag expression trees, order of the file-writing events of save) + vm_compute '
-              'correspondences (codecs, frame histories, container both directions incl. foreign full-chain files) + save/read oracle search',
+              'correspondences (codecs, frame histories, container both directions incl. foreign full-chain files) + save/read oracle search; '
+              'round 4: fail-closed census of every use of a frame\'s pixel array with an address-map model (shape of every access path, '
+              'allocation sizes, copy guards), if statements of the pixel loop as ETest chains (bluescreen formats, hand proof + 256-value '
+              'enumeration), per-pixel laws lifted to frames by induction and composed with the whole-file theorem; cross-path oracle',
     text='Theorems in Props/C15.v, generic in the objects read from the source. Codecs (_py_vtf_readwrite.py): if the kernel-checked '
          'boolean rt_ok codec spec holds then load(save p) is exactly the documented quantisation of p for every byte-valued pixel '
          '(identity on the used channels for the 8-bit formats), every stored value is a byte; if sf_ok holds then save(load d) = d on '
@@ -41,11 +44,26 @@ MANIFEST = dict(
          'side/depth, mipmap) read() visits gets exactly the bytes save() produced for it, for any object version and written version '
          '(save(version=)), cubemap or volume; every fitting file can be encoded. Particle sheets: read_sheet(make_sheet qs) = qs for '
          'both sheet versions (version 0 keeps the first coordinate of a frame only). The premises are regenerated from '
-         'vtf.py/_py_vtf_readwrite.py on every run and checked in the kernel (180 obligations); the generated codecs are compared with '
+         'vtf.py/_py_vtf_readwrite.py on every run and checked in the kernel (253 obligations); the generated codecs are compared with '
          'the Python codecs, the generated Frame effect tables are run by Coq on symbolic pixels against histories of operations on the '
          'implementation, implementation-saved files are decoded by the Coq container model and model-encoded files (also files that '
          'declare all mipmap levels, as other tools write them) are read by VTF.read; whole files are saved and read back over all '
-         'sizes 1x1..64x64, frames, depth, cubemaps, versions 7.2-7.5 with overrides, all writable formats, resources and sheets.',
+         'sizes 1x1..64x64, frames, depth, cubemaps, versions 7.2-7.5 with overrides, all writable formats, resources and sheets. '
+         'Round 4. Pixel access paths: every occurrence of <frame>._data in vtf.py is classified (test, None, allocation, whole copy, '
+         'item access, or argument of load/save/scale_down/ppm_convert/alpha_flatten/PIL frombuffer/memoryview.cast; anything else stops '
+         'the translation) and per site the rows/columns/bytes it uses are regenerated, also for every Frame(a, b) / frame_size(a, b); '
+         'for every site whose description passes path_ok (instance obligation per site) the accepted coordinates are exactly '
+         '[0,width) x [0,height) x [0,4) and the byte addressed is 4*(y*width + x) + c, so a pixel written through one path is read back '
+         'through every other and no other coordinate changes (c15_every_pixel_path_agrees), frame[x, y] rejects nothing inside the '
+         'frame, every allocation has 4*width*height bytes, whole arrays are copied only between frames of equal width and height; '
+         'every site that addresses the frame table builds the key (frame, side-or-depth, mipmap) (roles of the key elements regenerated), '
+         'so VTF.get finds the frame the constructor / read() stored. '
+         'The RGB888/BGR888_BLUESCREEN codecs are translated (if statements) and equal the hand-written keyed codec, for which '
+         'load(save p) = (0,0,0,0) if alpha < 128 or the colour is pure blue, else (r, g, b, 255), and save(load d) = d on all stored '
+         'values. Frames: decode_frame(encode_frame ps) = map q ps for frames of any size, and (c15_saved_pixels_read_back_*) for every '
+         '(frame, side, mipmap) read() visits in a file written by save(), decoding the bytes at the computed offset gives pixel by '
+         'pixel the documented quantisation of the pixels saved. A cross-path oracle writes every pixel of 15 mostly non-square '
+         'shapes through five paths and reads it through nine (incl. PIL, the PPM handed to tkinter, stand-in wx images).',
     note='Trusted: Coq kernel + vm_compute, translate/c15_norm.py (behaviour-preserving rewrites before the translators: constants, '
          'precompiled structs, product loops, guard clauses, copy propagation of locals that name a side-effect-free expression over '
          'stable attributes), c15_pixel.py (incl. its polynomial evaluator for scale_down), c15_frame.py (abstract interpreter; '
@@ -54,18 +72,24 @@ MANIFEST = dict(
          'exercised). encode_file/decode_file/make_sheet/read_sheet are hand-written models of VTF.save/VTF.read/make_data/'
          'from_resource: the theorems are about them; their tie to the source is the regenerated sites, flag trees, side lists, loop '
          'nests and event order (instance obligations), the example files evaluated in the kernel over the generated formats, and the '
-         'two-way correspondence on every run - not a refinement proof of the Python control flow. The two *_BLUESCREEN formats, the '
-         'nearest-neighbour filters beyond their offset table and the thumbnail regeneration policy are searched, not modelled. Known '
+         'two-way correspondence on every run - not a refinement proof of the Python control flow. The '
+         'nearest-neighbour filters beyond their offset table and the thumbnail regeneration policy are searched, not modelled. '
+         'translate/c15_access.py is trusted for the classification of the uses of _data, for the argument conventions of PIL '
+         'frombuffer / memoryview.cast / wx.Image (fixed table) and for naming the role of unresolvable names by the substrings '
+         'width/height; a shaped view is modelled for non-negative indexes (negative ones wrap the Python way inside the array). The '
+         'if -> ETest encoding of the bluescreen conditions is valid for byte operands. Known '
          'findings (recorded, not repaired): mipmap_count is one less than the number of levels (mipmap-count-off-by-one), '
          'RGB565/BGR565 exchange R and B on a round trip (rgb565-rb-swap) - both carved out of the theorems as *_pinned / *_refuted '
          'statements. Repaired in round 3: save(version=) across the 7.5 sphere-map boundary for cubemaps. DXT/ATI formats are not '
          'writable from Python and outside the property. The Cython twin cannot be built here and is not verified.',
 )
 
-IMPORTS = ['Coq.NArith.NArith', 'Coq.ZArith.ZArith', 'Coq.Lists.List', 'SV.Fmt.VtfPixelExpr', 'SV.Fmt.VtfLayout', 'SV.Fmt.VtfSides',
+IMPORTS = ['Coq.NArith.NArith', 'Coq.ZArith.ZArith', 'Coq.Lists.List', 'SV.Fmt.VtfPixelExpr', 'SV.Fmt.VtfBluescreen', 'SV.Fmt.VtfLayout', 'SV.Fmt.VtfSides',
            'SV.Gen.PixelCodecs_gen', 'SV.Gen.VtfLayout_gen']
 IMPORTS_CONT = ['Coq.NArith.NArith', 'Coq.ZArith.ZArith', 'Coq.Lists.List', 'Coq.Strings.String', 'Coq.Bool.Bool', 'SV.Bin.Struct',
                 'SV.Fmt.VtfContainer', 'SV.Fmt.VtfWholeFile', 'SV.Gen.VtfContainer_gen']
+IMPORTS_ACCESS = ['Coq.ZArith.ZArith', 'Coq.Lists.List', 'Coq.Strings.String', 'Coq.Bool.Bool', 'SV.Fmt.VtfLayout', 'SV.Fmt.VtfAccess',
+                  'SV.Gen.VtfLayout_gen', 'SV.Gen.VtfAccess_gen']
 IMPORTS_FRAME = ['Coq.Lists.List', 'Coq.Strings.String', 'Coq.Bool.Bool', 'SV.Fmt.VtfFrameSM', 'SV.Gen.VtfFrameSM_gen']
 
 # format (lower case) -> (specification of load-after-save, canonical stored form)
@@ -80,6 +104,8 @@ SPECS = {
 }
 # Known finding rgb565-rb-swap: for these formats the obligation accepts "correct" or "exactly the known swap".
 SWAP_565 = {'rgb565', 'bgr565'}
+# the two keyed formats: `if` statements, compared with the hand-written codec of Fmt/VtfBluescreen.v (format -> stored as b, g, r?)
+BLUESCREEN = {'rgb888_bluescreen': 'false', 'bgr888_bluescreen': 'true'}
 EIGHT_BIT = {'rgba8888', 'bgra8888', 'argb8888', 'abgr8888', 'uvlx8888', 'uvwq8888', 'rgb888', 'bgr888', 'bgrx8888', 'a8', 'uv88'}
 
 
@@ -217,9 +243,12 @@ def pk(t) -> int:
     return sum(v << (8 * i) for i, v in enumerate(t))
 
 
-def corr_codecs(ck: Ck, cod: dict) -> None:
+def corr_codecs(ck: Ck, cod: dict):
     """Generated Coq codecs (evaluated by vm_compute) and the translator's IR (evaluated in Python) against the running
-    Python codecs."""
+    Python codecs.  The kernel evaluations are started in the background (six coqc processes); the function returned
+    waits for them and records the outcome, so that the caller can run its other Coq stages meanwhile (round 4: wall time
+    on a loaded machine).  Inputs are drawn from ck.rng here, results are recorded by the returned function: both at fixed
+    points of run(), so the run stays deterministic."""
     from concurrent.futures import ThreadPoolExecutor
     from srctools.vtf import ImageFormats
     n_rand = ck.budget(250, 2500)
@@ -280,9 +309,9 @@ def corr_codecs(ck: Ck, cod: dict) -> None:
             exprs.append(f'fp (map (fun d => pack (run (load_e codec_{name}) d)) all{bpp})')
             meta.append(('fp', name, None, py_fp(pk(l) for l in load_all)))
         elif bpp == 2:
-            # quick tier: the kernel evaluates a random eighth of the 2^16 stored values (the Python evaluation of the
+            # quick tier: the kernel evaluates a random sixteenth of the 2^16 stored values (the Python evaluation of the
             # translated expressions above is still exhaustive); the thorough tier and any broken tie run all of them
-            sub = sorted(ck.rng.sample(range(65536), 8192))
+            sub = sorted(ck.rng.sample(range(65536), 4096))
             lit3 = '[' + ';'.join(str(v) for v in sub) + ']'
             exprs.append(f'fp (map (fun v => pack (run (load_e codec_{name}) (unpack 2 v))) {lit3})')
             meta.append(('fp', name, None, py_fp(pk(load_all[v]) for v in sub)))
@@ -299,8 +328,19 @@ def corr_codecs(ck: Ck, cod: dict) -> None:
     def work(ig):
         i, g = ig
         return ck.coq_eval(IMPORTS, [e for ex, _ in g for e in ex], name=f'codecs{i}', preamble=PRE, timeout=900)
-    with ThreadPoolExecutor(max_workers=6) as ex:
-        results = list(ex.map(work, enumerate(groups)))
+    ex = ThreadPoolExecutor(max_workers=6)
+    futures = [ex.submit(work, ig) for ig in enumerate(groups)]
+
+    def finish() -> None:
+        results = [f.result() for f in futures]
+        ex.shutdown()
+        _corr_codecs_finish(ck, groups, results, full_sweep, special)
+    return finish
+
+
+def _corr_codecs_finish(ck: Ck, groups, results, full_sweep, special) -> None:
+    from srctools.vtf import ImageFormats
+    bad: list[dict] = []
     if any(r is None for r in results):
         ck.obligation('correspondence:coq-codecs', False, 'generated codecs could not be evaluated in Coq')
         ck.tie_broken.append('correspondence codecs: Coq evaluation failed')
@@ -326,7 +366,7 @@ def corr_codecs(ck: Ck, cod: dict) -> None:
     ck.count('coq_codec_evaluations', n_exact)
     ck.obligation('correspondence:coq-codecs', not bad,
                   f'{n_exact} save/load evaluations of Gen/PixelCodecs_gen.v by vm_compute equal the Python codecs (' + ('value by value' if full_sweep else 'by 61-bit fingerprint per format and direction; value by value in the thorough tier') + '); '
-                  f'{n_fp} stored-value sweeps (all 2^8 values; ' + ('all 2^16' if full_sweep else 'a random 2^13 of the 2^16') + f' values of the 2-byte formats) agree by 61-bit fingerprint: {len(bad)} disagreements')
+                  f'{n_fp} stored-value sweeps (all 2^8 values; ' + ('all 2^16' if full_sweep else 'a random 2^12 of the 2^16') + f' values of the 2-byte formats) agree by 61-bit fingerprint: {len(bad)} disagreements')
     if bad:
         ck.tie_broken.append('correspondence generated codecs vs _py_vtf_readwrite')
         ck.extra['codec_disagreement'] = bad[:5]
@@ -430,6 +470,47 @@ def _pixels(rng: random.Random, n: int) -> bytes:
 
 
 def run_config(cfg: dict) -> list[tuple[str, str]]:
+    """_run_config under an alarm: a configuration on which save/read does not come back is a failing input."""
+    try:
+        return _with_alarm(60, lambda: _run_config(cfg))
+    except TimeoutError as e:
+        return [('save-read-does-not-return', f'building, saving and reading back this texture: {e} (milliseconds on the unchanged tree)')]
+
+
+def get_probe(obj, what: str) -> list[tuple[str, str]]:
+    """VTF.get(frame=, depth= | side=, mipmap=) is how a user reaches a frame: for every key of the frame table it must hand out
+    exactly the frame stored under that key, and refuse a (frame, side/depth, mipmap) that is not in the table."""
+    from srctools.vtf import VTFFlags
+    cube = VTFFlags.ENVMAP in obj.flags
+    out: list[tuple[str, str]] = []
+    for k, fr in obj._frames.items():
+        kw = {'frame': k[0], 'mipmap': k[2], ('side' if cube else 'depth'): k[1]}
+        try:
+            got = obj.get(**kw)
+        except Exception as e:      # noqa: BLE001
+            out.append((f'get-raises-{type(e).__name__}', f'{what}: get({kw}) raised {type(e).__name__}: {e} for a key of the frame table'))
+            break
+        if got is not fr:
+            other = next((k2 for k2, f2 in obj._frames.items() if f2 is got), None)
+            out.append(('get-returns-another-frame', f'{what}: get(frame={k[0]}, {"side" if cube else "depth"}={k[1]!r}, mipmap={k[2]}) returns the frame stored under {other}'))
+            break
+    if obj._frames:
+        nf, nm = 1 + max(k[0] for k in obj._frames), 1 + max(k[2] for k in obj._frames)
+        side = next(iter(obj._frames))[1]
+        for kw in ({'frame': nf, 'mipmap': 0}, {'frame': 0, 'mipmap': nm}):
+            kw[('side' if cube else 'depth')] = side
+            try:
+                obj.get(**kw)
+            except (KeyError, IndexError, ValueError):
+                continue
+            except Exception as e:      # noqa: BLE001
+                out.append((f'get-raises-{type(e).__name__}', f'{what}: get({kw}) outside the frame table raised {type(e).__name__}: {e}'))
+                continue
+            out.append(('get-accepts-key-outside-the-frame-table', f'{what}: get({kw}) returns a frame; the table has {nf} frame(s) and {nm} level(s)'))
+    return out
+
+
+def _run_config(cfg: dict) -> list[tuple[str, str]]:
     """Build the VTF described by cfg, save it, read it back, and return [(violation key, description)]."""
     from srctools.vtf import VTF, ImageFormats, VTFFlags, Resource, ResourceID, SheetSequence, TexCoord
     from srctools.math import Vec
@@ -456,6 +537,7 @@ def run_config(cfg: dict) -> list[tuple[str, str]]:
         vtf.resources[key] = Resource(fl, data if isinstance(data, int) else bytes.fromhex(data))
     keys0 = set(vtf._frames)
     dims0 = {k: (f.width, f.height) for k, f in vtf._frames.items()}
+    probs += get_probe(vtf, 'constructed object')
     n_levels = 1 + max(k[2] for k in keys0)
     for k in sorted(keys0, key=lambda k: (k[0], getattr(k[1], 'value', k[1]), k[2])):
         fr = vtf._frames[k]
@@ -511,6 +593,7 @@ def run_config(cfg: dict) -> list[tuple[str, str]]:
         v2.load()
     except Exception as e:
         return probs + [(f'read-raises-{type(e).__name__}', f'reading the saved file raised {type(e).__name__}: {e}')]
+    probs += get_probe(v2, 'read-back object')
     exp_version = sv or (7, cfg['version'])
     meta = {
         'width': (vtf.width, v2.width), 'height': (vtf.height, v2.height), 'depth': (vtf.depth, v2.depth),
@@ -844,6 +927,408 @@ def search_bounds(ck: Ck) -> None:
                         fr.copy_from(data)
 
 
+
+# ================================================================================================ pixel access paths (round 4)
+def _slug(s: str) -> str:
+    import re
+    return re.sub(r'_+', '_', re.sub(r'[^A-Za-z0-9]+', '_', s)).strip('_')
+
+
+def access_obligations(info: dict) -> dict[str, str]:
+    """one named boolean per site of the census (Gen/VtfAccess_gen.v)"""
+    obs: dict[str, str] = {}
+    for i, (name, _r, _c, _k) in enumerate(info['paths']):
+        obs[f'pixel_path_{_slug(name)}_has_rows_height_columns_width_4_bytes'] = f'path_ok (nth {i} gen_paths transposed_path)'
+    for i, (name, _f) in enumerate(info['allocs']):
+        obs[f'pixel_array_allocated_in_{_slug(name.split(":")[0])}_{i}_has_4_width_height_bytes'] = f'alloc_ok 4 (snd (nth {i} gen_allocs (EmptyString, nil)))'
+    for i, (name, _a) in enumerate(info['guards']):
+        obs[f'whole_array_{_slug(name)}_only_between_frames_of_equal_width_and_height'] = f'copy_guard_ok (snd (nth {i} gen_copy_guards (EmptyString, nil)))'
+    for i, (name, _r) in enumerate(info.get('keys', [])):
+        obs[f'frame_table_key_in_{_slug(name)}_is_frame_side_mipmap'] = f'key_ok (snd (nth {i} gen_key_sites (EmptyString, nil)))'
+    obs['clear_mipmaps_erases_exactly_the_levels_with_index_above_after'] = 'clear_after_ok gen_clear_after'
+    obs['every_frame_table_key_is_frame_side_mipmap'] = '(forallb (fun k => key_ok (snd k)) gen_key_sites && negb (Nat.eqb (List.length gen_key_sites) 0))%bool'
+    obs['every_pixel_path_of_the_census_has_the_canonical_address_map'] = \
+        '(forallb path_ok gen_paths && negb (Nat.eqb (List.length gen_paths) 0))%bool'
+    obs['every_pixel_array_allocation_has_4_width_height_bytes'] = '(forallb (fun a => alloc_ok 4 (snd a)) gen_allocs && negb (Nat.eqb (List.length gen_allocs) 0))%bool'
+    obs['getitem_rejects_nothing_inside_the_frame'] = 'bounds_exact getitem_reject'
+    obs['setitem_rejects_nothing_inside_the_frame'] = 'bounds_exact setitem_reject'
+    return obs
+
+
+def _colour(x: int, y: int, salt: int) -> tuple[int, int, int, int]:
+    return ((x * 16 + 3 + salt) % 256, (y * 16 + 5 + 3 * salt) % 256, (x * 7 + y * 11 + salt) % 256, (255 - x - 2 * y - salt) % 256)
+
+
+class _FakeWx:
+    """stand-in for wxPython (not installed): records the size each image is made with and the RGB bytes it is given"""
+    BitmapBufferFormat_RGB = 1
+
+    def __init__(self) -> None:
+        self.made: list = []
+        outer = self
+
+        class Image:
+            def __init__(self, w, h):
+                self.size, self.buf = (w, h), bytearray(3 * w * h)
+                outer.made.append(self)
+
+            def GetDataBuffer(self):
+                return self.buf
+
+        class Bitmap:
+            def __init__(self, w, h):
+                self.size, self.buf = (w, h), None
+                outer.made.append(self)
+
+            def CopyFromBuffer(self, buf, fmt):
+                self.buf = bytes(buf)
+        self.Image, self.Bitmap = Image, Bitmap
+
+
+def _with_alarm(seconds: int, fn):
+    """run fn(); a call into the implementation that does not come back is a failing input, not a hung check.
+    Nests: an enclosing alarm is re-armed with what is left of it."""
+    import signal
+    import time
+
+    def onalarm(signum, frame):
+        raise TimeoutError(f'no result after {seconds}s')
+    old = signal.signal(signal.SIGALRM, onalarm)
+    t0 = time.time()
+    prev = signal.alarm(seconds)
+    try:
+        return fn()
+    finally:
+        signal.alarm(0)
+        signal.signal(signal.SIGALRM, old)
+        if prev:
+            signal.alarm(max(1, prev - int(time.time() - t0)))
+
+
+def _stage(ck: Ck, name: str, fn, *args, alarm: bool = True) -> None:
+    """One stage that calls into srctools.  Whatever a fault makes the implementation do - raise something the stage does not
+    expect, or never return - ends as a VIOLATION that names the stage, not as INTERNAL-ERROR or a hung check.  The limit is
+    far above what the stage needs (a few seconds in the quick tier, a few minutes in the thorough one, on a loaded machine)."""
+    import traceback
+    limit = 3000
+    try:
+        if alarm:
+            _with_alarm(limit, lambda: fn(ck, *args))
+        else:
+            fn(ck, *args)
+    except TimeoutError as e:
+        ck.violation(f'implementation-does-not-return-in-{name}',
+                     f'stage {name}: a call into srctools did not return ({e}); the stage takes seconds on the unchanged tree', {'stage': name})
+    except Exception as e:      # noqa: BLE001
+        ck.violation(f'{name}-raises-{type(e).__name__}',
+                     f'stage {name}: unexpected {type(e).__name__}: {e}\n' + traceback.format_exc()[-1500:], {'stage': name})
+
+
+def _view(fr):
+    """memoryview(frame): the buffer protocol reaches Frame.__buffer__ from Python 3.12 on (PEP 688); call it directly before"""
+    import sys
+    return memoryview(fr) if sys.version_info >= (3, 12) else fr.__buffer__(0)
+
+
+def paths_case(w: int, h: int, salt: int = 0) -> list[tuple[str, str]]:
+    """Every way of writing the pixels of a w x h frame, every way of reading them: all must use the address map
+    byte 4*(y*w + x) + c for (x, y, c) and accept exactly [0,w) x [0,h)."""
+    import sys
+    from array import array
+    from srctools.vtf import VTF, ImageFormats
+    # optional third-party consumers: a sandbox without Pillow / Tk must not turn into an alarm (the paths are then not exercised)
+    try:
+        import tkinter
+    except Exception:       # noqa: BLE001
+        tkinter = None
+    try:
+        import PIL.Image    # noqa: F401
+        have_pil = True
+    except Exception:       # noqa: BLE001
+        have_pil = False
+    out: list[tuple[str, str]] = []
+    size = f'{w}x{h}'
+    want = {(x, y): _colour(x, y, salt) for y in range(h) for x in range(w)}
+    flat = bytes(v for y in range(h) for x in range(w) for v in want[x, y])
+
+    def new_frame():
+        vtf = VTF(w, h, fmt=ImageFormats.RGBA8888, thumb_fmt=ImageFormats.RGB888)
+        # known finding mipmap-count-off-by-one: a texture with a side of 1 declares 0 levels and would be saved without
+        # any frame; declare the level that exists, so that the save/read path can be exercised on 1xN and Nx1 as well
+        vtf.mipmap_count = max(vtf.mipmap_count, 1)
+        return vtf, vtf.get()
+
+    # ---------------------------------------------------------------- writers
+    def w_setitem(fr):
+        for (x, y), px in want.items():
+            fr[x, y] = px
+
+    def w_buffer(fr):
+        mv = _view(fr)
+        bad = []
+        for (x, y), px in want.items():
+            for c, v in enumerate(px):
+                try:
+                    mv[y, x, c] = v
+                except IndexError:
+                    bad.append((x, y, c))
+        mv.release()
+        if bad:
+            out.append(('pixel-path-buffer-rejects-coordinate-inside-the-frame',
+                        f'{size}: memoryview(frame)[y, x, c] = v raises IndexError for {len(bad)} of {4 * w * h} coordinates inside the frame, e.g. (x, y, c) = {bad[0]}'))
+
+    def w_copy_bytes(fr):
+        fr.copy_from(flat)
+
+    def w_copy_frame(fr):
+        _, other = new_frame()
+        other._data = array('B', flat)
+        fr.copy_from(other)
+
+    def w_file(fr):
+        vtf2, f2 = new_frame()
+        f2._data = array('B', flat)
+        bio = io.BytesIO()
+        vtf2.save(bio)
+        back = VTF.read(io.BytesIO(bio.getvalue()))
+        fr.copy_from(back.get())        # Frame.load of a lazily read frame, then a frame-to-frame copy
+
+    writers = {'setitem': w_setitem, 'buffer': w_buffer, 'copy_from_bytes': w_copy_bytes, 'copy_from_frame': w_copy_frame,
+               'file_load': w_file}
+
+    # ---------------------------------------------------------------- readers: -> {(x, y): tuple of 3 or 4 channels}
+    def r_getitem(fr):
+        return {(x, y): tuple(fr[x, y]) for (x, y) in want}
+
+    def r_buffer(fr):
+        mv = _view(fr)
+        if mv.shape != (h, w, 4):
+            out.append(('pixel-path-buffer-shape-is-not-height-width-4', f'{size}: memoryview(frame).shape == {mv.shape}, expected {(h, w, 4)}'))
+        res, bad = {}, []
+        for (x, y) in want:
+            try:
+                res[x, y] = tuple(mv[y, x, c] for c in range(4))
+            except IndexError:
+                bad.append((x, y))
+        if bad:
+            out.append(('pixel-path-buffer-rejects-coordinate-inside-the-frame',
+                        f'{size}: memoryview(frame)[y, x, c] raises IndexError for {len(bad)} of {w * h} pixels inside the frame, e.g. (x, y) = {bad[0]}'))
+        for (x, y) in ((w, 0), (0, h), (w, h - 1), (w - 1, h)):
+            try:
+                mv[y, x, 0]
+            except IndexError:
+                continue
+            out.append(('pixel-path-buffer-accepts-coordinate-outside-the-frame',
+                        f'{size}: memoryview(frame)[y={y}, x={x}, 0] is accepted (the frame has x < {w}, y < {h})'))
+            break
+        try:
+            mv[0, 0, 4]
+            out.append(('pixel-path-buffer-accepts-coordinate-outside-the-frame', f'{size}: memoryview(frame)[0, 0, 4] is accepted'))
+        except IndexError:
+            pass
+        return res
+
+    def r_buffer_bytes(fr):
+        b = bytes(_view(fr))
+        return {(x, y): tuple(b[4 * (y * w + x):4 * (y * w + x) + 4]) for (x, y) in want} if len(b) == 4 * w * h else {}
+
+    def r_pil(fr):
+        img = fr.to_PIL()
+        if img.size != (w, h) or img.mode != 'RGBA':
+            out.append(('pixel-path-to_PIL-size-is-not-width-height', f'{size}: to_PIL() gives a {img.mode} image of size {img.size}'))
+        res = {}
+        for (x, y) in want:
+            try:
+                res[x, y] = tuple(img.getpixel((x, y)))
+            except IndexError:
+                pass
+        return res
+
+    def r_tk(fr):
+        got = {}
+        orig = tkinter.PhotoImage
+        try:
+            tkinter.PhotoImage = lambda **kw: got.update(kw) or 'photo'       # no display here: take what would be shown
+            fr.to_tkinter()
+        finally:
+            tkinter.PhotoImage = orig
+        data = got.get('data', b'')
+        head, _, raster = data.partition(b'\n')
+        parts = head.split()
+        if len(parts) != 4 or parts[0] != b'P6' or (int(parts[1]), int(parts[2])) != (w, h) or parts[3] != b'255' or len(raster) != 3 * w * h:
+            out.append(('pixel-path-to_tkinter-ppm-size-is-not-width-height', f'{size}: to_tkinter() hands tkinter a PPM with header {head!r} and {len(raster)} raster bytes'))
+            return {}
+        return {(x, y): tuple(raster[3 * (y * w + x):3 * (y * w + x) + 3]) for (x, y) in want}
+
+    def r_wx(method):
+        def go(fr):
+            fake = _FakeWx()
+            had = sys.modules.get('wx')
+            sys.modules['wx'] = fake
+            try:
+                getattr(fr, method)()
+            finally:
+                if had is None:
+                    sys.modules.pop('wx', None)
+                else:
+                    sys.modules['wx'] = had
+            if len(fake.made) != 1 or fake.made[0].size != (w, h) or fake.made[0].buf is None or len(fake.made[0].buf) != 3 * w * h:
+                out.append((f'pixel-path-{method}-size-is-not-width-height',
+                            f'{size}: {method}() makes wx images of size {[m.size for m in fake.made]}'))
+                return {}
+            b = bytes(fake.made[0].buf)
+            return {(x, y): tuple(b[3 * (y * w + x):3 * (y * w + x) + 3]) for (x, y) in want}
+        return go
+
+    def r_saved(fr_vtf):
+        def go(fr):
+            bio = io.BytesIO()
+            fr_vtf.save(bio)
+            back = VTF.read(io.BytesIO(bio.getvalue()))
+            bf = back.get()
+            if (bf.width, bf.height) != (w, h):
+                out.append(('pixel-path-saved-frame-has-other-dimensions', f'{size}: read back as {bf.width}x{bf.height}'))
+                return {}
+            return {(x, y): tuple(bf[x, y]) for (x, y) in want}
+        return go
+
+    def compare(name_w: str, name_r: str, got: dict, raw_ok: bool) -> None:
+        wrong = [(x, y) for (x, y) in want if got.get((x, y)) != want[x, y][:len(got.get((x, y), ()) or (0, 0, 0, 0))]]
+        if not wrong:
+            return
+        x, y = wrong[0]
+        if not raw_ok:
+            key, who = f'pixel-path-write-{name_w}-lands-elsewhere', f'written through {name_w}'
+        else:
+            key, who = f'pixel-path-read-{name_r}-reads-other-pixels', f'read through {name_r}'
+        out.append((key, f'{size}: pixels written through {name_w} and read through {name_r}: {len(wrong)} of {w * h} differ ({who} is off), '
+                         f'e.g. (x, y) = ({x}, {y}) gives {got.get((x, y))}, written {want[x, y]}'))
+
+    for name_w, wfn in writers.items():
+        try:
+            vtf, fr = new_frame()
+            _with_alarm(20, lambda: wfn(fr))
+            raw = bytes(fr._data) if fr._data is not None else b''
+        except Exception as e:      # noqa: BLE001 - whatever a fault makes the implementation raise is a finding
+            out.append((f'pixel-path-write-{name_w}-raises-{type(e).__name__}', f'{size}: writing every pixel through {name_w}: {type(e).__name__}: {e}'))
+            continue
+        if len(raw) != 4 * w * h:
+            out.append(('pixel-array-length-is-not-4-width-height', f'{size}: after writing through {name_w} the pixel array has {len(raw)} bytes'))
+            continue
+        raw_ok = raw == flat
+        if not raw_ok:
+            got = {(x, y): tuple(raw[4 * (y * w + x):4 * (y * w + x) + 4]) for (x, y) in want}
+            compare(name_w, 'the array itself', got, False)
+        readers = {'getitem': r_getitem, 'buffer': r_buffer, 'buffer_bytes': r_buffer_bytes, 'to_PIL': r_pil, 'to_tkinter': r_tk,
+                   'to_wx_image': r_wx('to_wx_image'), 'to_wx_bitmap': r_wx('to_wx_bitmap'), 'save_read': r_saved(vtf)}
+        if not have_pil:
+            del readers['to_PIL']
+        if tkinter is None:
+            del readers['to_tkinter']
+        for name_r, rfn in readers.items():
+            try:
+                got = _with_alarm(20, lambda: rfn(fr))
+            except Exception as e:      # noqa: BLE001
+                out.append((f'pixel-path-read-{name_r}-raises-{type(e).__name__}', f'{size}: reading every pixel through {name_r} (written through {name_w}): {type(e).__name__}: {e}'))
+                continue
+            if raw_ok and got:
+                compare(name_w, name_r, got, True)
+    # ---------------------------------------------------------------- allocation sizes and the size test of copy_from(Frame)
+    for how in ('load', 'fill', 'copy_from', 'rescale_from'):
+        try:
+            vtf, fr = new_frame()
+            fr._data = None
+            if how == 'load':
+                fr.load()
+            elif how == 'fill':
+                fr.fill(1, 2, 3, 4)
+            elif how == 'copy_from':
+                fr.copy_from(flat)
+            else:
+                big = VTF(2 * w, 2 * h).get()
+                big.fill(9, 9, 9, 9)
+                fr.rescale_from(big)
+            if fr._data is None or len(fr._data) != 4 * w * h:
+                out.append(('pixel-array-length-is-not-4-width-height', f'{size}: {how}() on a frame without pixels makes an array of {None if fr._data is None else len(fr._data)} bytes'))
+        except Exception as e:      # noqa: BLE001
+            out.append((f'pixel-path-{how}-raises-{type(e).__name__}', f'{size}: {how}() on a frame without pixels: {type(e).__name__}: {e}'))
+    for (w2, h2) in {(h, w), (w, 2 * h), (2 * w, h), (2 * w, max(h // 2, 1)), (max(w // 2, 1), 2 * h)} - {(w, h)}:
+        _, fr = new_frame()
+        fr.copy_from(flat)
+        other = VTF(w2, h2).get()
+        other.fill(7, 7, 7, 7)
+        try:
+            fr.copy_from(other)
+        except ValueError:
+            continue
+        except Exception as e:      # noqa: BLE001
+            out.append((f'pixel-path-copy_from-raises-{type(e).__name__}', f'{size}: copy_from(a {w2}x{h2} frame): {type(e).__name__}: {e}'))
+            continue
+        out.append(('copy-from-frame-of-another-size-accepted', f'a {size} frame accepts copy_from(a {w2}x{h2} frame); its array now has {len(fr._data)} bytes'))
+    return out
+
+
+def dxt_case(w: int, h: int) -> list[tuple[str, str]]:
+    """Block-compressed data is the one input for which the decoders use width and height separately: a w x h DXT1 image of
+    solid 4x4 blocks, each of another colour, handed to copy_from() and to the lazy load() of a read frame, must come out
+    as solid 4x4 squares at the blocks' places (compared by pattern: no reference decoder involved)."""
+    from srctools.vtf import VTF, ImageFormats
+    out: list[tuple[str, str]] = []
+    cols = [0xF800, 0x07E0, 0x001F, 0xFFE0, 0xF81F, 0x07FF, 0xFFFF, 0x8410, 0x8000, 0x0400, 0x0010, 0x8400, 0x8010, 0x0410, 0xC618, 0x4208]
+    bw, bh = w // 4, h // 4
+    data = b''.join(struct.pack('<HHI', cols[(by * bw + bx) % len(cols)], 0, 0) for by in range(bh) for bx in range(bw))
+    for how in ('copy_from', 'lazy_load'):
+        try:
+            fr = VTF(w, h).get()
+            if how == 'copy_from':
+                _with_alarm(20, lambda: fr.copy_from(data, ImageFormats.DXT1))
+            else:
+                fr._data = None
+                fr._fileinfo = (io.BytesIO(b'\0' * 7 + data), 7, ImageFormats.DXT1)     # what VTF.read() attaches to a frame
+                _with_alarm(20, fr.load)
+            raw = bytes(fr._data)
+        except Exception as e:      # noqa: BLE001
+            out.append((f'dxt-non-square-{how}-raises-{type(e).__name__}', f'{w}x{h} DXT1 through {how}: {type(e).__name__}: {e}'))
+            continue
+        px = {(x, y): raw[4 * (y * w + x):4 * (y * w + x) + 4] for y in range(h) for x in range(w)}
+        rep = {(bx, by): px[4 * bx, 4 * by] for by in range(bh) for bx in range(bw)}
+        wrong = [(x, y) for (x, y), v in px.items() if v != rep[x // 4, y // 4]]
+        if len(raw) != 4 * w * h or wrong or len(set(rep.values())) != min(len(rep), len(cols)):
+            out.append((f'dxt-non-square-{how}-misplaces-blocks',
+                        f'{w}x{h} DXT1 image of {bw}x{bh} solid blocks through {how}: {len(wrong)} pixels are not the colour of their block'
+                        + (f', e.g. (x, y) = {wrong[0]}' if wrong else f'; {len(set(rep.values()))} distinct block colours')))
+    return out
+
+
+PATH_SHAPES = [(1, 1), (2, 1), (1, 2), (4, 1), (1, 4), (8, 1), (1, 8), (2, 8), (8, 2), (4, 2), (2, 4), (16, 2), (4, 4), (2, 16), (8, 4)]
+
+
+def search_paths(ck: Ck) -> None:
+    for mod in ('PIL.Image', 'tkinter'):
+        try:
+            __import__(mod)
+            ck.hist('pixel_path_optional_consumers', f'{mod}: exercised')
+        except Exception:       # noqa: BLE001
+            ck.hist('pixel_path_optional_consumers', f'{mod}: not installed, path not exercised')
+            ck.notes.append(f'{mod} is not importable here: the corresponding reader of the pixel-path oracle is skipped (the obligation about its site still holds)')
+    for k, (w, h) in enumerate(PATH_SHAPES):
+        salt = ck.rng.randrange(256)
+        ck.count('pixel_path_cases', 5 * 8)
+        ck.hist('pixel_path_shapes', 'square' if w == h else 'wide' if w > h else 'tall')
+        if w != h:
+            ck.seen(('paths', w, h, salt))
+        if k < 3:
+            ck.sample({'paths': [w, h, salt]})
+        for key, what in paths_case(w, h, salt):
+            ck.violation(key, what, {'paths': [w, h, salt]})
+    for (w, h) in [(8, 4), (4, 8), (16, 4), (4, 16), (8, 8), (16, 8)]:
+        ck.count('dxt_block_layout_cases', 2)
+        if w != h:
+            ck.seen(('dxt', w, h))
+        for key, what in dxt_case(w, h):
+            ck.violation(key, what, {'dxt': [w, h]})
+
+
 def search_filters(ck: Ck) -> None:
     from srctools.vtf import VTF, FilterMode
     modes = [FilterMode.UPPER_LEFT, FilterMode.UPPER_RIGHT, FilterMode.LOWER_LEFT, FilterMode.LOWER_RIGHT, FilterMode.BILINEAR]
@@ -1076,7 +1561,7 @@ def corr_container(ck: Ck) -> None:
     n = ck.budget(14, 60)
     cfgs = []
     forced = [dict(version=2), dict(version=3, resources=[['CRC', 0, 7], ['KVD', 0, '0102030405']]), dict(version=4, cube=True, depth=1),
-              dict(version=5, cube=True, depth=1), dict(version=5, depth=3, frames=2)]
+              dict(version=5, cube=True, depth=1), dict(version=5, cube=False, depth=3, frames=2)]
     for i in range(n):
         c = cont_config(ck.rng, fmts)
         if i < len(forced):
@@ -1247,7 +1732,7 @@ def gen_history(rng: random.Random, n: int) -> list[list]:
     ops: list[list] = []
     k = 0
     for _ in range(rng.choice([0, 1, 1, 2, 2, 3, 4, 6])):
-        kind = rng.choice(['load', 'clear', 'clear', 'fill', 'copy', 'set', 'rescale', 'compute', 'exit'])
+        kind = rng.choice(['load', 'clear', 'clear', 'fill', 'copy', 'set', 'rescale', 'compute', 'exit', 'clear_after'])
         m = rng.randrange(n)
         if kind == 'rescale':
             m = rng.randrange(1, n) if n > 1 else 0
@@ -1299,6 +1784,9 @@ def run_history_impl(base: bytes, n: int, ops: list[list]) -> list[bytes]:
         if kind == 'exit':
             v.__exit__(None, None, None)
             continue
+        if kind == 'clear_after':           # VTF.clear_mipmaps(after=a): the levels BELOW level a (index > a) are cleared, level a is kept
+            v.clear_mipmaps(after=op[1])
+            continue
         fr = v.get(mipmap=op[1])
         if kind == 'load':
             fr.load()
@@ -1320,6 +1808,17 @@ def run_history_impl(base: bytes, n: int, ops: list[list]) -> list[bytes]:
     return [bytes(v2.get(mipmap=m)._data) for m in range(n)]
 
 
+def expand_history(ops: list[list], n: int) -> list[list]:
+    """clear_mipmaps(after=a) is, for the levels of one frame, clear() of every level with index > a"""
+    out: list[list] = []
+    for op in ops:
+        if op[0] == 'clear_after':
+            out += [['clear', m] for m in range(op[1] + 1, n)]
+        else:
+            out.append(op)
+    return out
+
+
 def spec_history(levels: list[bytes], ops: list[list]) -> list[tuple[str, bytes]]:
     """The property restated directly (independent of the Coq model and of the source): per level (why, pixels) that
     save() must write.  A level keeps the file's pixels until something writes to it; reading never changes anything;
@@ -1329,6 +1828,7 @@ def spec_history(levels: list[bytes], ops: list[list]) -> list[tuple[str, bytes]
     property, but an explicit rescale_from() of such a level and __exit__ behave differently afterwards: from the first
     level where that matters on, the history is not judged ('unjudged')."""
     n = len(levels)
+    ops = expand_history(ops, n)
     dims = [(HIST_W >> m, HIST_H >> m) for m in range(n)]
     blank = [bytes((0, 0, 0, 255)) * (w * h) for w, h in dims]
     src = [True] * n
@@ -1455,7 +1955,8 @@ def corr_frames(ck: Ck, frame_ok: bool) -> None:
     dims = [(HIST_W >> m, HIST_H >> m) for m in range(n)]
     fixed = [[], [['clear', n - 1]], [['clear', 1]], [['compute']], [['compute'], ['clear', n - 1]], [['rescale', 1]],
              [['load', 1], ['clear', 2 % n]], [['set', 1]], [['exit']], [['load', 0], ['exit'], ['clear', 1]],
-             [['copy', 1, 0, 7], ['clear', 2 % n]], [['fill', 0, 0, 9], ['clear', 1]], [['clear', 0]]]
+             [['copy', 1, 0, 7], ['clear', 2 % n]], [['fill', 0, 0, 9], ['clear', 1]], [['clear', 0]],
+             [['clear_after', 0]], [['clear_after', 1]], [['load', 1], ['clear_after', 1]], [['clear_after', n - 1]]]
     cases = fixed + [gen_history(ck.rng, n) for _ in range(ck.budget(140, 480))]
     found: dict[str, tuple[list, str]] = {}
     impl_out: list[list[bytes] | None] = []
@@ -1486,7 +1987,7 @@ def corr_frames(ck: Ck, frame_ok: bool) -> None:
     ck.sample({'frame_history': cases[len(fixed)], 'levels': n, 'must_be_written_from': [w for w, _ in spec_history(levels, cases[len(fixed)])]})
     if not frame_ok:
         return
-    vals = ck.coq_eval(IMPORTS_FRAME, [f'hist {n} {_coq_ops(ops)}' for ops in cases], name='framehist', preamble=PRE_FRAME, timeout=600)
+    vals = ck.coq_eval(IMPORTS_FRAME, [f'hist {n} {_coq_ops(expand_history(ops, n))}' for ops in cases], name='framehist', preamble=PRE_FRAME, timeout=600)
     if vals is None:
         ck.obligation('correspondence:frame-histories', False, 'the generated effect tables could not be run in Coq')
         ck.tie_broken.append('correspondence frame histories: Coq evaluation failed')
@@ -1517,6 +2018,36 @@ def corr_frames(ck: Ck, frame_ok: bool) -> None:
 
 
 # ================================================================================================ main
+class _Deferred:
+    """Runs Ck.instance_obligations in a background thread against a private list of obligations; merge() appends them to
+    the real Ck in the order of the calls to merge(), so the evidence is the same as for a sequential run."""
+
+    def __init__(self, ck: Ck, imports, obs: dict[str, str], name: str) -> None:
+        import threading
+        self.ck, self.obligations, self.tie_broken = ck, [], []
+        self.notes, self.scratch = ck.notes, ck.scratch
+        self.error: BaseException | None = None
+
+        def go():
+            try:
+                Ck.instance_obligations(self, imports, obs, name=name)
+            except BaseException as e:      # noqa: BLE001 - re-raised in merge()
+                self.error = e
+        self.thread = threading.Thread(target=go, daemon=True)
+        self.thread.start()
+
+    coq_eval = Ck.coq_eval
+    coq_scratch = Ck.coq_scratch
+    obligation = Ck.obligation
+
+    def merge(self) -> None:
+        self.thread.join()
+        if self.error is not None:
+            raise self.error
+        self.ck.obligations += self.obligations
+        self.ck.tie_broken += self.tie_broken
+
+
 def run(ck: Ck) -> None:
     _patch_known()
     ck.rule = ('codecs: every writable format; pixels = fixed corner cases + per-channel sweeps 0..255 (other channels random) + random '
@@ -1528,11 +2059,17 @@ def run(ck: Ck) -> None:
                'bounds: all (x,y) in [-3, w+3) x [-3, h+3) for six frame shapes, non-trivial = outside the frame. '
                'filters: five filter modes on six shapes. '
                'frame histories: a 32x16 RGBA8888 file with unrelated random levels is read lazily, 0-6 random operations '
-               '(load/clear/fill/copy_from/__setitem__/rescale_from/compute_mipmaps/__exit__ on random levels) plus 13 fixed histories, '
+               '(load/clear/fill/copy_from/__setitem__/rescale_from/compute_mipmaps/__exit__/clear_mipmaps(after=) on random levels) plus 17 fixed histories, '
                'then save; distinct by the operation list, non-trivial = at least one operation. '
                'container: small sizes, versions 7.2-7.5, cubemaps, depth, frames, 0-4 resources, sheets; distinct by configuration. '
                'cubemap save(version=) overrides: all 12 ordered pairs of versions, 1-3 frames, also on a lazily read object. '
-               'full mip chains: six shapes (square and not) x two formats with mipmap_count set to the number of levels.')
+               'full mip chains: six shapes (square and not) x two formats with mipmap_count set to the number of levels. '
+               'pixel paths: 15 shapes (13 non-square: Nx1, 1xN, 2x8, 8x2, 16x2 ...), every pixel given a distinct colour (random salt), '
+               'written through each of 5 paths (setitem, buffer protocol, copy_from bytes / frame, lazy load of a saved file) and read '
+               'through each of 9 (getitem, buffer index by index, bytes(memoryview), raw array, to_PIL, to_tkinter PPM, two wx '
+               'converters on a stand-in module, save+read), plus out-of-range probes, allocation lengths, copy_from of frames of '
+               'other sizes with the same pixel count; non-trivial = non-square. DXT1 block layout: six shapes of solid 4x4 blocks '
+               'through copy_from and the lazy load.')
     ck.trusted.append('Fmt/VtfPixelExpr.v specification tuples spec_* / canon_* (hand-written from the docstrings; their meaning as functions '
                       'is restated by c15_spec_* theorems) and checks/c15.py ref_quantise (independent Python restatement used by the oracle)')
     ck.trusted.append('translate/c15_frame.py tables D_COQ/S_COQ and READERS, translate/c15_container.py tables SAVE_FIELD/READ_FIELD/READ_ATTR '
@@ -1541,7 +2078,15 @@ def run(ck: Ck) -> None:
                       'precompiled structs, product loops, literal-tuple loops, unused enumerate, guard clauses, helper inlining, copy '
                       'propagation of locals that name a side-effect-free expression over stable attributes or inside a call-free window); '
                       'the polynomial evaluator of scale_down in translate/c15_pixel.py')
+    ck.trusted.append('translate/c15_access.py: classification of every use of <frame>._data, binding of call arguments to parameter names, the '
+                      'fixed argument conventions of PIL frombuffer / memoryview.cast / wx.Image / wx.Bitmap, _role (which dimension a local '
+                      'derives from); the `if` -> ETest-chain encoding of translate/c15_pixel.py (x < 128 = bit 7 clear, x == c = eight bit '
+                      'tests; valid for bytes, cross-checked by the codec correspondence)')
     ck.assumptions += [
+        'a shaped view of the pixel array (buffer protocol, PIL) is modelled for non-negative indexes; negative indexes follow the Python '
+        'from-the-end convention and stay inside the array',
+        'a frame is stored as the concatenation of its pixels\' stored bytes (encode_frame): the codec translator accepts only per-pixel '
+        'loops / strided slice copies with offsets inside one pixel',
         'a frame is not passed to its own copy_from/rescale_from (no aliasing of self and the parameter frame)',
         'encode_file/decode_file and make_sheet/read_sheet are hand-written models of VTF.save/VTF.read and SheetSequence.make_data/'
         'from_resource: the whole-file and sheet theorems are about the models; their tie to the source is the regenerated sites, flag '
@@ -1554,14 +2099,21 @@ def run(ck: Ck) -> None:
     ok2 = ck.translate('VtfLayout_gen', c15_pixel.translate_layout)
     ok3 = ck.translate('VtfFrameSM_gen', c15_frame.translate_frame)
     ok4 = ck.translate('VtfContainer_gen', c15_container.translate_container)
+    ok5 = ck.translate('VtfAccess_gen', c15_access.translate_access)
     cod = None
     if ok1:
         cod, _ = c15_pixel.codecs_ir()
-    built = ok1 and ok2 and ok3 and ok4 and ck.build(['Props/C15.vo'])
+    built = ok1 and ok2 and ok3 and ok4 and ok5 and ck.build(['Props/C15.vo'])
     if built:
-        ck.theorems('Props/C15.v')
+        codecs_done = corr_codecs(ck, cod)     # six coqc processes in the background while the stages below run
         obs: dict[str, str] = {}
-        for name in sorted(set(SPECS) | set(cod)):
+        for name in sorted(set(SPECS) | set(cod) | set(BLUESCREEN)):
+            if name in BLUESCREEN:
+                if name not in cod:
+                    obs[f'codec_{name}_still_translated'] = 'false'
+                else:
+                    obs[f'{name}_stores_alpha_below_128_as_pure_blue_and_loads_pure_blue_as_transparent_black'] = f'bs_ok {BLUESCREEN[name]} codec_{name}'
+                continue
             if name not in SPECS:
                 obs[f'codec_{name}_has_a_specification'] = 'false'
                 continue
@@ -1577,6 +2129,7 @@ def run(ck: Ck) -> None:
                 obs[f'{name}_load_of_save_{kind}'] = f'rt_ok codec_{name} {spec}'
                 obs[f'{name}_stored_fixpoint'] = f'sf_ok codec_{name} ({canon})'
         obs.update({
+            'every_codec_stores_at_least_one_byte_per_pixel': 'forallb (fun nc => Nat.ltb 0 (bpp (snd nc))) all_codecs',
             'mip_loop_breaks_when_a_side_is_1_and_halves': 'mip_loop_ok gen_mipcfg',
             'mipmap_count_is_number_of_levels_or_known_last_index': 'orb (mip_count_ok gen_mipcfg) (N.eqb (count_delta gen_mipcfg) 0)',
             'save_and_read_walk_frames_in_the_same_order': 'order_eqb save_order read_order',
@@ -1599,18 +2152,23 @@ def run(ck: Ck) -> None:
             'nearest_filters_pick_block_corners': 'terms_eqb nearest_terms block_terms',
             'nearest_filters_use_the_same_texel_offsets_as_bilinear': 'nearest_offsets_same_as_bilinear',
         })
-        ck.instance_obligations(IMPORTS, obs)
-        ck.instance_obligations(IMPORTS_FRAME, FRAME_OBS, name='inst_frame')
-        ck.instance_obligations(IMPORTS_CONT, CONT_OBS, name='inst_cont')
-        corr_container(ck)
-        corr_codecs(ck, cod)
-    corr_frames(ck, bool(built))
-    search_codecs(ck)
-    search_bounds(ck)
-    search_filters(ck)
-    search_files(ck)
-    search_cube_override(ck)
-    search_full_chain(ck)
+        # the four groups of instance obligations run in the background (two coqc each) while Print Assumptions runs here
+        groups = [_Deferred(ck, IMPORTS, obs, 'inst'), _Deferred(ck, IMPORTS_FRAME, FRAME_OBS, 'inst_frame'),
+                  _Deferred(ck, IMPORTS_CONT, CONT_OBS, 'inst_cont'),
+                  _Deferred(ck, IMPORTS_ACCESS, access_obligations(ck.extra['translated']['VtfAccess_gen']), 'inst_access')]
+        ck.theorems('Props/C15.v')
+        for g in groups:
+            g.merge()
+        _stage(ck, 'container-correspondence', corr_container, alarm=False)     # waits for coqc: no alarm, exceptions only
+        codecs_done()
+    _stage(ck, 'frame-histories', corr_frames, bool(built), alarm=False)
+    _stage(ck, 'codec-search', search_codecs)
+    _stage(ck, 'bounds-search', search_bounds)
+    _stage(ck, 'pixel-path-search', search_paths)
+    _stage(ck, 'filter-search', search_filters)
+    _stage(ck, 'file-search', search_files)
+    _stage(ck, 'cubemap-override-search', search_cube_override)
+    _stage(ck, 'full-chain-search', search_full_chain)
     # which broken obligations do the concrete violations explain?  Only NEW violations count: a known finding is reported
     # on every run and explains nothing that breaks today (round 3: the known mipmap-count finding used to explain a
     # failed layout translation, so a tree on which the proof side was not checked at all could exit 0).
@@ -1649,6 +2207,7 @@ def run(ck: Ck) -> None:
         if k.startswith(('frame-history-', 'lazy-resave-')):
             ck.explain('instance:frame_')
             ck.explain('instance:compute_mipmaps_')
+            ck.explain('instance:clear_mipmaps_')
             ck.explain('instance:rescale_from_')
             ck.explain('instance:save_')
             ck.explain('correspondence:frame-histories')
@@ -1661,10 +2220,21 @@ def run(ck: Ck) -> None:
             ck.explain('instance:cubemaps_have_six_sides')
             ck.explain('instance:save_and_read_loop_nests')
             ck.explain('instance:save_and_read_walk')
+        if k.startswith(('get-', 'frames-permuted', 'frame-table')):
+            ck.explain('instance:frame_table_key_')
+            ck.explain('instance:every_frame_table_key')
+        if k.startswith(('pixel-path-', 'pixel-array-', 'copy-from-frame-', 'dxt-non-square-', 'generated-mipmap', 'frame-dimensions', 'frames-permuted', 'pixels-displaced')):
+            ck.explain('instance:pixel_path_')
+            ck.explain('instance:pixel_array_')
+            ck.explain('instance:whole_array_')
+            ck.explain('instance:every_pixel_')
+            ck.explain('translate:VtfAccess_gen')
         if k.startswith('frame-getitem'):
             ck.explain('instance:getitem_')
+            ck.explain('instance:every_pixel_path')
         if k.startswith('frame-setitem'):
             ck.explain('instance:setitem_')
+            ck.explain('instance:every_pixel_path')
         if k.startswith(('generated-mipmap', 'mip-dimensions')):
             ck.explain('instance:bilinear_')
             ck.explain('instance:nearest_')
@@ -1721,6 +2291,17 @@ def replay(data: dict) -> int:
     if 'history' in r:
         base, n, levels = history_base(r['seed'])
         for k, w in check_history(base, n, levels, r['history']):
+            print(k, '::', w)
+        return 0
+    if 'stage' in r:
+        print(f"stage {r['stage']}: run the check again; the finding is about the stage as a whole: {data.get('what', '')}")
+        return 0
+    if 'dxt' in r:
+        for k, w in dxt_case(*r['dxt']):
+            print(k, '::', w)
+        return 0
+    if 'paths' in r:
+        for k, w in paths_case(*r['paths']):
             print(k, '::', w)
         return 0
     if 'bounds' in r:
